@@ -163,8 +163,8 @@ func (fr *Frame) step(st *State, ins ssa.Instruction) {
 		}
 	}()
 	x.vc.pcNow = st.pc
-	if fr.depth == 0 && fr.contract != nil && len(fr.contract.Reach) > 0 {
-		fr.reachCheck(st, ins)
+	if gc := fr.gateContract(); gc != nil && len(gc.Reach) > 0 {
+		fr.reachCheck(st, ins, gc)
 	}
 	switch in := ins.(type) {
 	case *ssa.DebugRef:
@@ -275,14 +275,43 @@ func (fr *Frame) step(st *State, ins ssa.Instruction) {
 }
 
 // reachCheck: gate obligations attached to statements by their source text.
-func (fr *Frame) reachCheck(st *State, ins ssa.Instruction) {
+// gateContract: the contract whose gates apply to the statements this frame
+// executes: its own (top-level frame), or the contract of the function under
+// verification when the frame runs one of its closure literals in place.
+func (fr *Frame) gateContract() *FuncContract {
+	if fr.depth == 0 {
+		return fr.contract
+	}
+	x := fr.x
+	if fr.fn.Parent() != nil && x.top != nil && x.top.contract != nil && fr.outermost() == x.top.outermost() {
+		return x.top.contract
+	}
+	return nil
+}
+
+func (fr *Frame) reachCheck(st *State, ins ssa.Instruction, gc *FuncContract) {
 	x := fr.x
 	pos := ins.Pos()
 	if !pos.IsValid() {
 		return
 	}
 	txt := normText(x.w.stmtTextAt(pos))
-	if txt == "" {
+	// gates keyed by callee ("call:Name"): every call instruction whose callee
+	// has that (unqualified) name, wherever it occurs; _c0, _c1, ... denote the
+	// arguments (the receiver of a method call is _c0)
+	callKey := ""
+	var callArgs []ssa.Value
+	if ci, ok := ins.(ssa.CallInstruction); ok {
+		if n := lastCallName(ci.Common()); n != "" {
+			callKey = "call:" + n
+			cc := ci.Common()
+			if cc.IsInvoke() {
+				callArgs = append(callArgs, cc.Value)
+			}
+			callArgs = append(callArgs, cc.Args...)
+		}
+	}
+	if txt == "" && callKey == "" {
 		return
 	}
 	if syn := fr.fn.Syntax(); syn != nil && fr.fn.Parent() != nil {
@@ -291,17 +320,30 @@ func (fr *Frame) reachCheck(st *State, ins ssa.Instruction) {
 			return
 		}
 	}
-	for _, rc := range fr.contract.Reach {
-		if rc.Stmt != txt {
-			// "prefix..." matches statements whose text starts with prefix
-			if !strings.HasSuffix(rc.Stmt, "...") || !strings.HasPrefix(txt, strings.TrimSuffix(rc.Stmt, "...")) {
+	for _, rc := range gc.Reach {
+		isCallGate := strings.HasPrefix(rc.Stmt, "call:")
+		if isCallGate {
+			if rc.Stmt != callKey {
+				continue
+			}
+		} else {
+			if txt == "" {
+				continue
+			}
+			if rc.Stmt != txt {
+				// "prefix..." matches statements whose text starts with prefix
+				if !strings.HasSuffix(rc.Stmt, "...") || !strings.HasPrefix(txt, strings.TrimSuffix(rc.Stmt, "...")) {
+					continue
+				}
+			}
+			if rc.Nth > 0 && x.w.stmtOrdinal(fr.fn, x.w.stmtPos[pos], txt) != rc.Nth {
 				continue
 			}
 		}
-		if rc.Nth > 0 && x.w.stmtOrdinal(fr.fn, x.w.stmtPos[pos], txt) != rc.Nth {
-			continue
+		key := fmt.Sprintf("%s@%s#%d", rc.Stmt, fr.fn.Name(), ins.Block().Index)
+		if isCallGate {
+			key = fmt.Sprintf("%s@%s#%d", rc.Stmt, fr.fn.Name(), int(pos))
 		}
-		key := fmt.Sprintf("%s@%d", rc.Stmt, ins.Block().Index)
 		if fr.reachDone == nil {
 			fr.reachDone = map[string]bool{}
 		}
@@ -317,6 +359,11 @@ func (fr *Frame) reachCheck(st *State, ins ssa.Instruction) {
 		env := fr.specEnv(st)
 		env.vars = map[string]*Val{} // names denote current values at the statement
 		env.lookup = func(s *State, name string) (*Val, bool) { return fr.lookupLocal(s, name, pos) }
+		if isCallGate {
+			for i, a := range callArgs {
+				env.vars[fmt.Sprintf("_c%d", i)] = fr.val(st, a)
+			}
+		}
 		g, err := env.evalBool(rc.Clause.Expr)
 		if err != nil {
 			x.vc.diag("%s: reach %q: %v", fr.fn.String(), rc.Stmt, err)
@@ -386,7 +433,7 @@ func (fr *Frame) nilCheck(st *State, p *Val, pos token.Pos, ins ssa.Instruction)
 func (fr *Frame) execAlloc(st *State, in *ssa.Alloc) {
 	x := fr.x
 	t := ptrElem(in.Type())
-	if in.Heap && isStruct(t) && !fr.allocStaysLocal(in) {
+	if in.Heap && ((isStruct(t) && !fr.allocStaysLocal(in)) || (!isStruct(t) && fr.addrStored(in))) {
 		r := x.allocStruct(st, t, nil)
 		fr.set(in, &Val{Ty: in.Type(), L: []string{r}})
 		fr.heapAllocs = append(fr.heapAllocs, in)
@@ -397,6 +444,17 @@ func (fr *Frame) execAlloc(st *State, in *ssa.Alloc) {
 	fr.allocs = append(fr.allocs, in)
 	st.cells[c] = zeroVal(t)
 	fr.set(in, &Val{Ty: in.Type(), L: []string{x.ptrTok()}, X: &PtrPath{Base: pbCell, Cell: c, BaseTy: t, Ty: t}})
+}
+
+// addrStored: the address of the variable itself is stored into memory
+// (p.f = &v): the variable has to be a heap object.
+func (fr *Frame) addrStored(in *ssa.Alloc) bool {
+	for _, r := range *in.Referrers() {
+		if u, ok := r.(*ssa.Store); ok && u.Val == in {
+			return true
+		}
+	}
+	return false
 }
 
 // allocStaysLocal: a heap-flagged struct Alloc whose address is only used for
@@ -431,6 +489,21 @@ func (fr *Frame) execStore(st *State, in *ssa.Store) {
 	x.storePath(st, p, v)
 }
 
+// entryAllocTop: the allocation counter of the state the current top-level
+// execution started from (the function under verification, or an escaped
+// closure verified from a state of its own).
+func (fr *Frame) entryAllocTop() string {
+	top := fr.x.top
+	root := fr
+	for root.parent != nil {
+		root = root.parent
+	}
+	if root != top && root.entry != nil {
+		return root.entry.allocTop
+	}
+	return top.entry.allocTop
+}
+
 // frameCheck: a function under contract may only write heap locations that
 // its assigns clause names or that it allocated itself.
 func (fr *Frame) frameCheck(st *State, p *PtrPath, pos token.Pos) {
@@ -447,7 +520,9 @@ func (fr *Frame) frameCheck(st *State, p *PtrPath, pos token.Pos) {
 		n, _ := x.leafHeapName(p, j)
 		ok, rows := x.frameAllow(n)
 		if !ok {
-			goal := tCmp(">", p.Ref, top.entry.allocTop)
+			// an escaped closure is verified from a state of its own: objects
+			// it allocates itself are newer than that state's allocation counter
+			goal := tCmp(">", p.Ref, fr.entryAllocTop())
 			for _, r := range rows {
 				goal = tOr(goal, tEq(p.Ref, r))
 			}
